@@ -159,6 +159,11 @@ def run(ctx):
     got4 = []
     ctx.guard("compress-eq", "sha512", lambda: got4.append(sha2eq.check_other(ctx, {"K0": P}, only=("sha512",))))
     ctx.check(got4 == [2], "floor", "compress-eq-sha512", "SHA-512's block function over 1 and 2 blocks equals FIPS 180-4 as a value graph", "only %s SHA-512 comparisons ran" % got4, key="floor:compress-eq-sha512")
+    # SHA-512 is fed in pieces (prefix, message; R, A, message): the engine must hand every piece to its block buffer exactly
+    # once and the buffer must absorb it for every split (rule instances shared with C02)
+    from . import C02 as _C02
+    ctx.guard("delegate", "md engines", lambda: _C02.check_delegate(ctx, P))
+    ctx.guard("absorb", "FixedBuffer", lambda: _C02.check_absorb(ctx, P))
     from . import C15, C12, sc32, febounds
     ctx.guard("scalar", "scalar64", lambda: C15.check_scalar64(ctx, P))
     # exchange() decodes the peer's public key with Fe::from_bytes (bit 255 = sign bit must be ignored), and the whole
